@@ -143,6 +143,17 @@ func RNGRecord() {}
 func RNGReplay() {}
 func RNGOff()    {}
 
+// Attempt is the number of the current native repetition of the harness (0 under the engine and in the
+// first native run). Harnesses whose outcome depends on something the engine explores exhaustively but a
+// native run fixes (the permutation the real DRBG derives from the entropy) use it to vary that input, so
+// that a counterexample can be reproduced natively by repeating the run (unit option native_repeat).
+func Attempt() int { return attempt }
+
+// SetAttempt is called by the generated replay test between repetitions.
+func SetAttempt(i int) { attempt = i }
+
+var attempt int
+
 // N builds an input name from a prefix and an index.
 func N(prefix string, i int) string { return prefix + strconv.Itoa(i) }
 
